@@ -4,7 +4,7 @@
    C06 de-resume  <setup> (pop ((..)..)) (popE (..)) (best (..)) (bestE f) (nlog n) (nstep n) (trials (((..)..)..)) (two b)
    C06 nm-resume  <setup> (sim ((..)..)) (fsim (..)) (nlog n) (nstep n) (steps k) (radius f) (inplace b)
    C06 ctl-resume (state gens evals nstep maxiter maxfun exit live) (scale i e) (powell b) (ops (..))
-   C06 alias      (ops ((fresh) (call i n) (decorate i) (pickle i) (deepcopyU i) (deepcopyL i) (shallow i) ..))
+   C06 alias      (ops ((fresh) (call i n) (decorate i) (pickle i) (deepcopyU i) (deepcopyL i) (shallow i) (setmon i new k) ..))
    C06 sticky     (solver de) (known K) (stored name cr f) (ops ((step s c f) (solve s c f k) (set s c f) (pickle) ..))
                   (solver two) (stored a b) (ops ((step a b) (solve a b k) (set a b) (pickle) ..)): the solver-private
                   settings handed to `_process_inputs` as keywords (`none` = not given); after every op the stored fields
@@ -20,6 +20,7 @@
 -/
 import MysticVerif.Basic.Proto
 import MysticVerif.Model.Checkpoint
+import MysticVerif.Model.CheckpointMon
 import MysticVerif.Model.PowellResume
 import MysticVerif.Drv.SolverDrv
 
@@ -153,6 +154,11 @@ def handleAlias (args : List Val) : String := Id.run do
       let some l := objs[i.toNat]? | return "err index"
       let r := shallowCopy h l
       h := r.1; objs := objs.push r.2
+    | .list [.sym "setmon", .int i, nw, .int k] =>   -- SetEvaluationMonitor(m, new) with a monitor already holding k records
+      let some l := objs[i.toNat]? | return "err index"
+      let some nb := nw.asBool? | return "bad-op"
+      let r := setMonitor h l nb ((List.range k.toNat).map (· + 1000000))
+      h := r.1; objs := objs.set! i.toNat r.2
     | .list [.sym "deepcopyU", .int i] =>        -- __deepcopy__ as implemented
       let some l := objs[i.toNat]? | return "err index"
       let r := deepcopyImpl h l
